@@ -70,3 +70,82 @@ Example C19_example :
   | _ => False
   end.
 Proof. vm_compute. reflexivity. Qed.
+
+(* ==== generated additions (tools/mkprops.py, table APPEND in tools/propstable.py) ==== *)
+(* the disassembly lists each instruction of the compiled program exactly once at its offset, the trace lists exactly
+   the instructions executed, and neither can reach a panic site of the disassembler (Proofs/DisasmProofs.v) *)
+From Coq Require Import Sorted.
+From BCL Require Import Model.Verify Proofs.VerifyProofs Proofs.Limits Proofs.DisasmProofs.
+
+Theorem C19_disasm_total : forall p, verify p = true -> exists ls, disasm p = Some ls.
+Proof. first [exact DisasmProofs.disasm_total | apply DisasmProofs.disasm_total]. Qed.
+Print Assumptions C19_disasm_total.
+
+(* one line per instruction boundary, in order, starting at 0, consecutive offsets differing by the decoded length, the last instruction ending at the end of the code *)
+Theorem C19_disasm_tiles : forall p, verify p = true ->
+  exists offs ls,
+    code_offsets p = Some offs /\                 (* the instruction boundaries, by decoding lengths *)
+    disasm p = Some (header p ++ ls) /\
+    length ls = length offs /\
+    Forall2 starts_at offs ls /\
+    map line_offset ls = offs /\
+    (exists more, offs = 0 :: more) /\ StronglySorted N.lt offs /\ NoDup offs /\ chain p offs /\
+    Forall2 (is_line p) offs ls.            (* line i is disasm_instr at offset i *)
+Proof. first [exact DisasmProofs.disasm_tiles | apply DisasmProofs.disasm_tiles]. Qed.
+Print Assumptions C19_disasm_tiles.
+
+(* for every accepted source shorter than 2^56 bytes *)
+Theorem C19_disasm_source : forall name src,
+  nlen src < 2^56 -> pr_ok (parse_whole name src) = true ->
+  let p := pr_prog (parse_whole name src) in
+  exists offs ls,
+    code_offsets p = Some offs /\
+    disasm p = Some (header p ++ ls) /\
+    length ls = length offs /\
+    Forall2 starts_at offs ls /\
+    map line_offset ls = offs /\
+    (exists more, offs = 0 :: more) /\ StronglySorted N.lt offs /\ NoDup offs /\ chain p offs /\
+    Forall2 (is_line p) offs ls.            (* line i is disasm_instr at offset i *)
+Proof. first [exact DisasmProofs.disasm_source | apply DisasmProofs.disasm_source]. Qed.
+Print Assumptions C19_disasm_source.
+
+Theorem C19_interpret_disasm_lines : forall name src d t s, nlen src < 2^56 ->
+  match snd (interpret name src d t s) with
+  | IRun out _ =>
+    exists ls, disasm (pr_prog (parse_whole name src)) = Some ls /\
+               filter is_disasm out = if d then map (fun l => (ODisasm, l)) ls else []
+  | IParseErr _ out => filter is_disasm out = []
+  | IModelFail _ => True
+  end.
+Proof. first [exact DisasmProofs.interpret_disasm_lines | apply DisasmProofs.interpret_disasm_lines]. Qed.
+Print Assumptions C19_interpret_disasm_lines.
+
+Theorem C19_never_disasm_panic : forall name src d t s, nlen src < 2^56 ->
+  ~ In (ODisasm, panic_marker) (io_out (snd (interpret name src d t s))).
+Proof. first [exact DisasmProofs.interpret_never_disasm_panic | apply DisasmProofs.interpret_never_disasm_panic]. Qed.
+Print Assumptions C19_never_disasm_panic.
+
+(* every pc at which the VM fetches an opcode is one of the listed offsets *)
+Theorem C19_run_pc_in_offsets : forall p offs, verify p = true -> code_offsets p = Some offs ->
+  forall tr m, reachable p tr m -> In (pc m) offs /\ rest m = code_at p (pc m).
+Proof. first [exact DisasmProofs.run_pc_in_offsets | apply DisasmProofs.run_pc_in_offsets]. Qed.
+Print Assumptions C19_run_pc_in_offsets.
+
+(* the trace is, in order, one (stack, instruction) pair per step; the instruction line is the disassembly line of that pc *)
+Theorem C19_trace_lists_instructions : forall p s offs ls, verify p = true ->
+  code_offsets p = Some offs -> disasm p = Some (header p ++ ls) ->
+  exists steps : list (vm * bytes),
+    filter is_trace (rr_out (execute p true s)) = flat_map step_out steps /\
+    Forall (step_ok p offs ls) steps.
+Proof. first [exact DisasmProofs.trace_lists_instructions | apply DisasmProofs.trace_lists_instructions]. Qed.
+Print Assumptions C19_trace_lists_instructions.
+
+Theorem C19_trace_source : forall name src s,
+  nlen src < 2^56 -> pr_ok (parse_whole name src) = true ->
+  let p := pr_prog (parse_whole name src) in
+  exists offs ls steps,
+    code_offsets p = Some offs /\ disasm p = Some (header p ++ ls) /\
+    filter is_trace (rr_out (execute p true s)) = flat_map step_out steps /\
+    Forall (step_ok p offs ls) steps.
+Proof. first [exact DisasmProofs.trace_source | apply DisasmProofs.trace_source]. Qed.
+Print Assumptions C19_trace_source.
